@@ -204,6 +204,8 @@ class Frame:
         self.none_tested = set()
         self.local_role_src = {}
         self.local_roles = {}             # local name -> node role, bound by what the name was assigned from
+        self.active_vars = set()          # locals holding the answer of `isActive` on a simulated qubit
+        self.local_qrefs = {}             # local name -> (QRef, node role): `x = <handle>.simQubit` read under the lock
         self.consts = {}                  # local name -> 'None' | 'empty'  (known constant value)
         self.dyn_depth = 0                # > 0 inside a branch that is not taken for sure
 
@@ -270,6 +272,11 @@ class Translator:
                 return "(Q %s)" % h, "(SIM %s)" % h
         if isinstance(node, ast.Name) and node.id in self.fr.qsets:
             return self.fr.qsets[node.id], "SELF"
+        if isinstance(node, ast.Name) and node.id in self.fr.local_qrefs:
+            q, role = self.fr.local_qrefs[node.id]
+            self.role_uses.add((self.fr.cls, "%s (assigned from <handle>.simQubit under the simulating node's lock)"
+                                % node.id, "%s at %s" % (q, role)))
+            return q, role
         txt = self.text(node)
         if self.handle_of(node) is None or self.fr.cls == "simulatedQubit":
             q = QREFS[self.fr.cls].get(txt)
@@ -660,7 +667,7 @@ class Translator:
         attrs = {n.attr for n in ast.walk(test) if isinstance(n, ast.Attribute)}
         if "active" in attrs and "simQubit" not in attrs:
             return "active"
-        if names == {"active"}:
+        if names == {"active"} or (len(names) == 1 and names <= self.fr.active_vars and not attrs):
             return "simActive"
         if "maxQubits" in attrs and "virtQubits" in attrs:
             return "capacity"
@@ -824,6 +831,12 @@ class Translator:
         # a local bound to a node by what it is assigned from (more robust than its name)
         if len(targets) == 1 and isinstance(targets[0], ast.Name):
             self.fr.local_roles.pop(targets[0].id, None)
+            self.fr.local_qrefs.pop(targets[0].id, None)
+            self.fr.active_vars.discard(targets[0].id)
+            _c = value.value if isinstance(value, ast.Yield) else value
+            if isinstance(_c, ast.Call) and isinstance(_c.func, ast.Name) and _c.func.id == "call_method" \
+                    and len(_c.args) >= 2 and isinstance(_c.args[1], ast.Constant) and _c.args[1].value == "isActive":
+                self.fr.active_vars.add(targets[0].id)
             inner = value.value if isinstance(value, ast.Yield) else value
             if isinstance(inner, ast.Call) and isinstance(inner.func, ast.Attribute):
                 fname = inner.func.attr
@@ -834,6 +847,19 @@ class Translator:
                 elif fname == "_lock_simulating_node":
                     self.fr.local_roles[targets[0].id] = "CUR"
                     self.fr.local_role_src[targets[0].id] = "_lock_simulating_node(…)"
+            elif isinstance(inner, ast.Attribute) and inner.attr == "simQubit" and not isinstance(value, ast.Yield) \
+                    and self.handle_of(inner.value) is not None \
+                    and "_lock_simulating_node(…)" in self.fr.local_role_src.values():
+                # `x = <handle>.simQubit` AFTER the simulating node was locked and re-validated in this method: the
+                # local names the object the pointer names now.  (Read BEFORE the lock it stays unclassified: the
+                # pointer may be re-pointed while waiting, and the obligation then fails, as it must.)
+                h = self.handle_of(inner.value)
+                self.fr.local_qrefs[targets[0].id] = ("(Q %s)" % h, "(SIM %s)" % h)
+            elif isinstance(inner, ast.Attribute) and inner.attr == "simNode" and isinstance(inner.value, ast.Name) \
+                    and inner.value.id in HANDLES.get(self.fr.cls, {}) and not isinstance(value, ast.Yield):
+                # `x = <handle>.simNode`: the node the pointer names NOW, captured in a local (whatever it is called)
+                self.fr.local_roles[targets[0].id] = "CUR"
+                self.fr.local_role_src[targets[0].id] = "%s.simNode" % inner.value.id
         # x = yield self.helper(...): track whether the helper returned a value, if the caller tests it
         ev = None
         if isinstance(value, ast.Yield) and isinstance(value.value, ast.Call) and len(targets) == 1 \
